@@ -3,7 +3,7 @@
    The model (C17/Model.v) is the repaired tree (WithCustomFallbackPartitioner stores its argument);
    [new_custom_pinned] is the wiring of the pinned tree. *)
 From Coq Require Import List ZArith Sorted.
-From SV Require Import Gen.GoInt Gen.DecTypes Gen.DecC17 C17.Model C17.Proofs C17.ProofsRoute C17.ProofsTie.
+From SV Require Import Gen.GoInt Gen.DecTypes Gen.DecTypes2 Gen.DecC17 C17.Model C17.Proofs C17.ProofsRoute C17.ProofsTie.
 Import ListNotations.
 Open Scope Z_scope.
 
@@ -127,3 +127,34 @@ Theorem c17_tie_hash_partition : forall hf ra m n r, 0 < n ->
   gen_out (DecC17.hash_partition n (key_is_nil m) r ENil (encode_err m) (write_err hf m) ra (hash_of hf m)).
 Proof. exact tie_hash_partition. Qed.
 Print Assumptions c17_tie_hash_partition.
+
+(* ---- wave 2: the hasher protocol and the two decision slices of partitionMessage ---- *)
+(* Reset then Write of the key for every keyed message (also an empty non-nil key), nothing otherwise; same result *)
+Theorem c17_tie_hash_calls : forall hf ra m n r, 0 < n ->
+  let '(acts, v, e) := DecC17.hash_partition_calls n (key_is_nil m) r ENil (encode_err m) (write_err hf m) ra (hash_of hf m) in
+  acts = map erase_call (hasher_calls m) /\
+  gen_out (v, e) = Model.hash_partition (HashP FbRandom hf ra) m n r.
+Proof. exact tie_hash_calls. Qed.
+Print Assumptions c17_tie_hash_calls.
+
+(* after those calls the hasher holds exactly this message's key, whatever it held before *)
+Theorem c17_hasher_state : forall st b m, m_key m = KBytes b -> hasher_run st (hasher_calls m) = b.
+Proof. exact hasher_state_after_calls. Qed.
+Print Assumptions c17_hasher_state.
+
+Theorem c17_tie_partition_source : forall p m md l0 e0,
+  let '(parts, err, ex) :=
+    DecC17.partition_source l0 e0 (is_dynamic p) (msg_requires p m) (static_requires p)
+      (cres_list (client_partitions md)) (cres_err (client_partitions md))
+      (cres_list (client_writable md)) (cres_err (client_writable md)) in
+  offered p m md = cres_of parts err /\ ex = ExFall.
+Proof. exact tie_partition_source. Qed.
+Print Assumptions c17_tie_partition_source.
+
+Theorem c17_tie_partition_pick : forall p m md r ps e0,
+  offered p m md = COk ps -> Z.of_nat (length ps) < 2147483648 ->
+  let o := fst (Model.partition p m (Z.of_nat (length ps)) r) in
+  (match o with Chose _ => True | Fail _ => True | _ => ps = [] end) ->
+  fst (route p m md r) = rout_of_pick (DecC17.partition_pick e0 (m_partition m) ps (pick_choice o) (pick_err o)).
+Proof. exact tie_partition_pick. Qed.
+Print Assumptions c17_tie_partition_pick.
